@@ -1320,3 +1320,83 @@ func c05TypedJoin() {
 
 func VerifC05TypedJoin() { c05TypedJoin() }
 func VerifC06TypedJoin() { c05Mode = 6; c05TypedJoin() }
+
+// a nested graph added with an input key (and optionally an output key), interrupted inside and resumed
+func c05SubGraphKeys() {
+	ctx := context.Background()
+	vcfg("fifo", 1)
+	vcfg("selectfirst", 1)
+	x := vsymInt("x")
+	counts := map[string]int{}
+	node := func(key string) *Lambda {
+		return InvokableLambda(func(ctx context.Context, in map[string]any) (map[string]any, error) {
+			counts[key]++
+			return map[string]any{key: vsymUF("f_"+key, vFoldDeep(in))}, nil
+		})
+	}
+	outKey := vchoose("outKey", 2) == 1
+	build := func(interrupts bool, store CheckPointStore) (Runnable[map[string]any, map[string]any], error) {
+		sub := NewGraph[map[string]any, map[string]any]()
+		_ = sub.AddLambdaNode("p", node("p"))
+		_ = sub.AddLambdaNode("q", node("q"))
+		_ = sub.AddEdge(START, "p")
+		_ = sub.AddEdge("p", "q")
+		_ = sub.AddEdge("q", END)
+		g := NewGraph[map[string]any, map[string]any]()
+		opts := []GraphAddNodeOpt{WithInputKey("k")}
+		if outKey {
+			opts = append(opts, WithOutputKey("o"))
+		}
+		if interrupts {
+			opts = append(opts, WithGraphCompileOptions(WithInterruptBeforeNodes([]string{"q"})))
+		}
+		_ = g.AddGraphNode("sub", sub, opts...)
+		_ = g.AddEdge(START, "sub")
+		_ = g.AddEdge("sub", END)
+		var copts []GraphCompileOption
+		if interrupts {
+			copts = append(copts, WithCheckPointStore(store))
+		}
+		return g.Compile(ctx, copts...)
+	}
+	in := map[string]any{"k": map[string]any{"v": x}, "other": 1}
+	ru, err := build(false, nil)
+	vassert(err == nil, "twin compiles")
+	want, werr := ru.Invoke(ctx, in)
+	vassert(werr == nil, "uninterrupted run succeeds")
+	for k := range counts {
+		counts[k] = 0
+	}
+	store := &vStore{m: map[string][]byte{}}
+	ri, err := build(true, store)
+	vassert(err == nil, "graph compiles")
+	var out map[string]any
+	var rerr error
+	finished := false
+	for call := 0; call < 3 && !finished; call++ {
+		if vchoose("paradigm", 2) == 1 {
+			sr, e := ri.Stream(ctx, in, WithCheckPointID("sk"))
+			rerr = e
+			if e == nil {
+				out, rerr = vDrainMap(sr)
+			}
+		} else {
+			out, rerr = ri.Invoke(ctx, in, WithCheckPointID("sk"))
+		}
+		if rerr == nil {
+			finished = true
+			break
+		}
+		_, ok := ExtractInterruptInfo(rerr)
+		a5(ok, "nested graph with an input key: the (resumed) run does not fail with a non-interrupt error")
+		a6(ok, "nested graph with an input key: only interrupt errors")
+		if !ok {
+			return
+		}
+	}
+	a5(finished && c02DeepEq(out, want), "nested graph with an input key: the resumed run returns the uninterrupted result")
+	a5(counts["p"] == 1 && counts["q"] == 1, "nested graph with an input key: every inner node executed exactly once")
+}
+
+func VerifC05SubGraphKeys() { c05SubGraphKeys() }
+func VerifC06SubGraphKeys() { c05Mode = 6; c05SubGraphKeys() }
